@@ -149,8 +149,14 @@ OPEN_ERRORS = {
 }
 
 
-def read_error():
-    return OSError(errno.EIO, "[sim] input/output error")
+READ_ERRNO = {"EIO": errno.EIO, "EINTR": errno.EINTR, "EAGAIN": errno.EAGAIN,
+              "ETIMEDOUT": errno.ETIMEDOUT}
+
+
+def read_error(code="EIO"):
+    # OSError(errno, msg) yields the matching subclass: InterruptedError,
+    # BlockingIOError, TimeoutError for the transient ones
+    return OSError(READ_ERRNO.get(code, errno.EIO), "[sim] read failed (%s)" % code)
 
 
 # ---------------------------------------------------------------------------
